@@ -446,6 +446,153 @@ type chkOutcome struct {
 	Panic    string
 	Compiled bool
 	Ticks    int64
+	Listing  map[string][]string // function name -> normalised instructions
+	ListErr  string
+}
+
+var (
+	hexByteRe  = regexp.MustCompile(`^[0-9A-F]{2}$`)
+	csNameRe   = regexp.MustCompile(`name: :"?([^",}]+)"?`)
+	csArgcRe   = regexp.MustCompile(`argument_count: (\d+)`)
+	freshSymRe = regexp.MustCompile(`sy\d{7}_`)
+)
+
+// bytecodeListing disassembles every function reachable from fn and normalises the
+// instructions so that two builds of the same source can be compared: addresses are
+// dropped, and every flavour of method call (dynamic, tail, statically bound to a
+// bytecode or native method - which of them a call site gets legitimately depends on the
+// order in which the bodies were compiled) becomes "CALL <short name>/<argc> [<full name>]".
+func bytecodeListing(fn *vm.BytecodeFunction) (map[string][]string, string) {
+	out := map[string][]string{}
+	seen := map[*vm.BytecodeFunction]bool{}
+	var firstErr string
+	var walk func(f *vm.BytecodeFunction)
+	walk = func(f *vm.BytecodeFunction) {
+		if f == nil || seen[f] {
+			return
+		}
+		seen[f] = true
+		var lines []string
+		for off := 0; off < len(f.Instructions); {
+			var b strings.Builder
+			next, err := f.DisassembleInstruction(&b, off)
+			if err != nil {
+				if firstErr == "" {
+					firstErr = fmt.Sprintf("%s at offset %d: %v", f.Name().String(), off, err)
+				}
+				break
+			}
+			lines = append(lines, normaliseInstruction(strings.TrimRight(b.String(), "\n")))
+			if next <= off {
+				break
+			}
+			off = next
+		}
+		key := f.Name().String()
+		for n := 2; out[key] != nil; n++ {
+			key = fmt.Sprintf("%s#%d", f.Name().String(), n)
+		}
+		out[key] = lines
+		for _, v := range f.Values {
+			if v.IsReference() {
+				if g, ok := v.AsReference().(*vm.BytecodeFunction); ok {
+					walk(g)
+				}
+			}
+		}
+	}
+	walk(fn)
+	return out, firstErr
+}
+
+func normaliseInstruction(line string) string {
+	f := strings.Fields(line)
+	if len(f) < 3 {
+		return line
+	}
+	i := 2
+	for i < len(f) && hexByteRe.MatchString(f[i]) {
+		i++
+	}
+	if i >= len(f) {
+		return f[0]
+	}
+	op := f[i]
+	rest := strings.Join(f[i+1:], " ")
+	rest = hexAddr.ReplaceAllString(rest, "0x?")
+	rest = freshSymRe.ReplaceAllString(rest, "syN_")
+	if strings.HasPrefix(op, "CALL_METHOD") {
+		full, argc := "", ""
+		if m := csNameRe.FindStringSubmatch(rest); m != nil {
+			full = m[1]
+		}
+		if m := csArgcRe.FindStringSubmatch(rest); m != nil {
+			argc = m[1]
+		}
+		short := full
+		for _, sep := range []string{"::", ".:", ":"} {
+			if k := strings.LastIndex(short, sep); k >= 0 {
+				short = short[k+len(sep):]
+			}
+		}
+		static := ""
+		if !strings.HasPrefix(rest, f[i+1]+" (CallSiteInfo") && strings.Contains(rest, "CallSiteInfo{&") {
+			static = " [" + full + "]"
+		}
+		return fmt.Sprintf("%s CALL %s/%s%s", f[0], short, argc, static)
+	}
+	return f[0] + " " + op + " " + rest
+}
+
+// sameInstruction compares two normalised instructions; the full name of a call target is
+// compared only when both builds bound the call statically.
+func sameInstruction(a, b string) bool {
+	if a == b {
+		return true
+	}
+	ia, ib := strings.Index(a, " ["), strings.Index(b, " [")
+	if !strings.Contains(a, " CALL ") || !strings.Contains(b, " CALL ") {
+		return false
+	}
+	if ia >= 0 && ib >= 0 {
+		return false
+	}
+	if ia >= 0 {
+		a = a[:ia]
+	}
+	if ib >= 0 {
+		b = b[:ib]
+	}
+	return a == b
+}
+
+func diffListings(ref, got map[string][]string) string {
+	var names []string
+	for n := range ref {
+		names = append(names, n)
+	}
+	sort.Strings(names)
+	for _, n := range names {
+		g, ok := got[n]
+		if !ok {
+			return fmt.Sprintf("function %s exists only in the sequential build", n)
+		}
+		r := ref[n]
+		if len(r) != len(g) {
+			return fmt.Sprintf("function %s has %d instructions in the sequential build and %d in the parallel one", n, len(r), len(g))
+		}
+		for i := range r {
+			if !sameInstruction(r[i], g[i]) {
+				return fmt.Sprintf("function %s, instruction %d:\n  sequential: %s\n  parallel:   %s", n, i, r[i], g[i])
+			}
+		}
+	}
+	for n := range got {
+		if _, ok := ref[n]; !ok {
+			return fmt.Sprintf("function %s exists only in the parallel build", n)
+		}
+	}
+	return ""
 }
 
 func diagStrings(c *checker.Checker, src string) (*vm.BytecodeFunction, []string, bool) {
@@ -478,6 +625,7 @@ func chkReference(t *testing.T, src string) (o chkOutcome) {
 			return
 		}
 		o.Compiled = true
+		o.Listing, o.ListErr = bytecodeListing(fn)
 		v := vm.New(vm.WithStdout(e.Out), vm.WithStderr(e.Out))
 		_, rerr := v.InterpretTopLevel(fn)
 		if !rerr.IsUndefined() {
@@ -533,6 +681,7 @@ func (*c11Engine) Execute(t *testing.T, c *Case) *Verdict {
 			return
 		}
 		got.Compiled = true
+		got.Listing, got.ListErr = bytecodeListing(fn)
 		v := vm.New(vm.WithStdout(e.Out), vm.WithStderr(e.Out))
 		_, rerr := v.InterpretTopLevel(fn)
 		if !rerr.IsUndefined() {
@@ -572,6 +721,17 @@ func (*c11Engine) Execute(t *testing.T, c *Case) *Verdict {
 	}
 	if d := diffMultiset(ref.Diags, got.Diags); d != "" {
 		return bad("diagnostics", "diagnostic multiset differs between sequential and parallel checking: %s", d)
+	}
+	if ref.Compiled && got.Compiled {
+		if got.ListErr != "" && ref.ListErr == "" {
+			return bad("bytecode", "a function compiled under the parallel schedule does not disassemble: %s", got.ListErr)
+		}
+		if ref.ListErr == "" && got.ListErr == "" {
+			if d := diffListings(ref.Listing, got.Listing); d != "" {
+				return bad("bytecode", "the bytecode compiled under the parallel schedule differs from the sequential build (method calls compared by target and argument count only): %s", d)
+			}
+			v.Extra["listings_compared"] = 1
+		}
 	}
 	if ref.Compiled {
 		if ref.Out != got.Out || ref.Err != got.Err {
